@@ -138,6 +138,10 @@ def job(spec):
                 outs = [fil.subband(call["dm"], call["nsub"], outfile_name=base + ".fil", **kw)]
             elif op == "zerodm":
                 outs = [fil.remove_zerodm(outfile_name=base + ".fil", **kw)]
+            elif op == "block_to_file":
+                outs = [fil.read_block(start, nsamps).to_file(base + ".fil")]
+            elif op == "to_tim":
+                outs = [fil.collapse(gulp=gulp, start=start, nsamps=nsamps, quiet=True).to_tim(base + ".tim")]
             elif op == "requantize":
                 outs = [fil.requantize(call["nbits_out"], outfile_name=base + ".fil", **kw)]
             rec["outcome"] = "ok"
@@ -166,8 +170,61 @@ def job(spec):
                 lst.append(snap)
             rec["writes"].append({"file": os.path.basename(fname), "events": lst, "final_size": len(fin),
                                   "snapshots": [w["bytes"] for w in evs] if spec.get("keep_snapshots") else []})
+        if spec.get("keep_snapshots"):
+            import gc
+            gc.collect()
+            rec["c20"] = [c20_material(d, w, fname) for fname, w in wfiles.items()]
         rec["in_hdr"] = in_hdr
         fil._file.close()
         recs.append(rec)
     return {"hdr": hdr, "recs": recs, "spec": {k: spec[k] for k in ("N", "C", "nbits", "split", "data", "id")},
             "band": band}
+
+
+def _reopen(d, raw, tag):
+    """What the library's own reader makes of a (possibly truncated) file image."""
+    from sigpyproc.readers import FilReader
+    p = d / f"snap_{tag}.fil"
+    p.write_bytes(raw)
+    try:
+        f = FilReader(str(p))
+        ns = int(f.header.nsamples)
+        vals = []
+        if ns > 0:
+            a = f.read_block(0, ns).data.T.ravel()
+            vals = [int(x) for x in a] if np.all(a == np.round(a)) else [-1]
+        f._file.close()
+        return {"ok": True, "ns": ns, "vals": vals}
+    except Exception as exc:  # noqa: BLE001
+        return {"ok": False, "ns": -1, "vals": [], "err": type(exc).__name__}
+    finally:
+        p.unlink(missing_ok=True)
+
+
+def c20_material(d, evs, fname):
+    fin = Path(fname).read_bytes() if Path(fname).exists() else b""
+    try:
+        hd, hl = fixtures.parse_sigproc(fin)
+        nbits, nch = int(hd["nbits"]), int(hd["nchans"])
+    except Exception:  # noqa: BLE001
+        return {"file": os.path.basename(fname), "parse_ok": False}
+    fvals = fixtures.decode_values(fin[hl:], nbits)
+    isint = bool(np.all(fvals == np.round(fvals)))
+    out = {"file": os.path.basename(fname), "parse_ok": True, "hdrlen": hl, "nbits": nbits, "nchans": nch,
+           "final_data": list(fin[hl:]), "final_vals": [int(x) for x in fvals] if isint else [],
+           "final_isint": isint, "events": [], "truncs": []}
+    for i, w in enumerate(evs):
+        raw = w["bytes"]
+        ro = _reopen(d, raw, f"{os.getpid()}_{i}") if len(raw) >= hl else {"ok": False, "ns": -1, "vals": []}
+        out["events"].append({"kind": w["kind"], "size": len(raw), "hdr_same": raw[:hl] == fin[: min(hl, len(raw))]
+                              if len(raw) >= hl else raw == fin[: len(raw)],
+                              "data": list(raw[hl:]), "ro_ok": ro["ok"], "ro_ns": ro["ns"], "ro_vals": ro["vals"]})
+    dl = len(fin) - hl
+    cuts = list(range(0, dl + 1)) if dl <= 48 else sorted({0, 1, dl - 1, dl, *[int(x) for x in
+                                                          np.random.default_rng(dl).integers(0, dl + 1, 14)]})
+    for cut in cuts:
+        ro = _reopen(d, fin[: hl + cut], f"{os.getpid()}_t{cut}")
+        out["truncs"].append({"cut": cut, "ro_ok": ro["ok"], "ro_ns": ro["ns"], "ro_vals": ro["vals"]})
+    out["size_at_return"] = evs[-1]["size"] if evs else 0
+    out["final_size"] = len(fin)
+    return out
